@@ -158,7 +158,7 @@ class Result:
 
 
 def save_replay(prop, src, tag):
-    d = os.path.join(VERIF, "replays", prop)
+    d = os.path.join(os.environ.get("VERIF_REPLAY_DIR") or os.path.join(VERIF, "replays"), prop)
     os.makedirs(d, exist_ok=True)
     dst = os.path.join(d, tag + "-" + os.path.basename(src))
     try:
@@ -206,8 +206,9 @@ def finish(res, spec):
     }
     if res.inconclusive:
         ev["coverage"]["inconclusive"] = res.inconclusive
-    os.makedirs(os.path.join(VERIF, "evidence"), exist_ok=True)
-    evp = os.path.join(VERIF, "evidence", res.prop + ".json")
+    evdir = os.environ.get("VERIF_EVIDENCE_DIR") or os.path.join(VERIF, "evidence")  # seedtest redirects it: runs on mutated trees must not overwrite the evidence
+    os.makedirs(evdir, exist_ok=True)
+    evp = os.path.join(evdir, res.prop + ".json")
     with open(evp + ".tmp", "w") as fh:
         json.dump(ev, fh, indent=1)
     os.replace(evp + ".tmp", evp)
